@@ -311,13 +311,19 @@ Definition of_opt {A} (e : errc) (o : option A) : outcome A :=
 Definition guard_nonzero (f : nnum -> nnum -> outcome nnum) (a b : nnum) : outcome nnum :=
   if is_nonzero b then f a b else Err EValue.
 
+(* "%": a % b, except that an exact zero divisor under an exact dividend is a value error
+   (the guard added by C06's fix: commit 2a751e6; float and complex % keep their IEEE answer) *)
+Definition is_exact (x : nnum) : bool := match x with NI _ | NR _ => true | _ => false end.
+Definition rem_builtin (F : float_ops) (a b : nnum) : outcome nnum :=
+  if is_exact a && is_exact b && negb (is_nonzero b) then Err EValue else num_rem F a b.
+
 Definition num_binop_gen (F : float_ops) (modfl pw : nnum -> nnum -> outcome nnum)
     (op : binop) (a b : nnum) : outcome nnum :=
   match op with
   | OAdd => num_add F a b
   | OSub => num_sub F a b
   | OMul => num_mul F a b
-  | ORem => num_rem F a b                                  (* unguarded in lib.rs: 5 % 0 panics (F9, C06/C14) *)
+  | ORem => rem_builtin F a b
   | ODivFloor => guard_nonzero (num_div_floor F) a b
   | OModFloor => guard_nonzero modfl a b
   | ODiv => num_div F a b
